@@ -536,7 +536,7 @@ class Executor:
                 sample = lst.get(0) if (lst.items is None or lst.items) else None
             except Exception:
                 sample = None
-            kind = 'arr' if isinstance(sample, (SArr, SOpt, SNone)) else 'int' if isinstance(sample, (int, z3.ExprRef)) else 'any'
+            kind = 'arr' if isinstance(sample, (SArr, SOpt, SNone)) else 'int' if isinstance(sample, (int, z3.ExprRef)) else 'ttref' if isinstance(sample, STT) else 'any'
             if isinstance(sample, (SOpt, SNone)):
                 kind = 'optarr%d' % (len(sample.val.shape) if isinstance(sample, SOpt) else 3)
         if kind == 'any':
@@ -1142,7 +1142,7 @@ def subst_value(v, pairs):
 
 def sym_elem_fn(kind, state):
     """fresh uninterpreted element function for a havoced / parameter list"""
-    if kind == 'int':
+    if kind in ('int', 'ttref'):
         f = fresh_fun('li', z3.IntSort(), z3.IntSort())
         return lambda j, f=f: f(j)
     if kind == 'bool':
